@@ -802,7 +802,29 @@ func okFromTflushAssert(m *ServerModel, hr *FuncInfo, st *HState, key string) bo
 // with the request's tag (the self-flush bypass): every path to call went through one of them.
 func handledOrBypassed(r *Run, m *ServerModel, hr *FuncInfo, call *ast.CallExpr) bool {
 	info := m.Info
-	// statement of call
+	// must-analysis: on every path to the call, cs.handle has returned, or the path went
+	// through the edge on which the request is a Tflush naming its own tag (the bypass that
+	// answers it directly) - however the if/else is arranged.
+	tagName := m.resultName(hr, 0, isCallTo(info, "p9.recv"))
+	_, at := mustFlag(m.DB, hr, func(n ast.Node, res *resolver) (bool, bool) {
+		done := false
+		inspectNoLit(n, func(x ast.Node) {
+			if c, ok := x.(*ast.CallExpr); ok && calleeKey(info, c) == "p9.connState.handle" {
+				done = true
+			}
+		})
+		return done, done
+	}, func(key string, truth bool) bool {
+		if !truth || tagName == "" {
+			return false
+		}
+		parts := strings.SplitN(key, " == ", 2)
+		if len(parts) != 2 {
+			return false
+		}
+		return strings.HasSuffix(parts[0], ".OldTag") && parts[1] == tagName || strings.HasSuffix(parts[1], ".OldTag") && parts[0] == tagName
+	})
+	// the statement that contains the call
 	var stmt ast.Node = call
 	for {
 		p := r.L.parent(stmt)
@@ -814,30 +836,8 @@ func handledOrBypassed(r *Run, m *ServerModel, hr *FuncInfo, call *ast.CallExpr)
 		}
 		stmt = p
 	}
-	blk := r.L.parent(stmt).(*ast.BlockStmt)
-	for _, s := range blk.List {
-		if s == stmt {
-			break
-		}
-		ifs, ok := s.(*ast.IfStmt)
-		if !ok || ifs.Else == nil || !strings.Contains(r.L.str(ifs.Cond), ".OldTag") {
-			continue
-		}
-		hasHandle := func(b ast.Node) bool {
-			found := false
-			ast.Inspect(b, func(n ast.Node) bool {
-				if c, ok := n.(*ast.CallExpr); ok && calleeKey(info, c) == "p9.connState.handle" {
-					found = true
-				}
-				return true
-			})
-			return found
-		}
-		if hasHandle(ifs.Else) && !hasHandle(ifs.Body) {
-			return true
-		}
-	}
-	return false
+	v, seen := at[stmt]
+	return seen && v
 }
 
 // comparesWithConstant: the atom "X.OldTag == Y" compares with a constant (noTag, a number),
